@@ -45,6 +45,21 @@ def flavour4(i, tb=""):
     return FLAV3[i % len(FLAV3)]
 
 
+def shared_nul_class(g, case, variant):
+    """Rule set in which NUL shares its equivalence class with other bytes (the high half of
+    the alphabet) and the number of classes is 2 or 4: whether NUL gets a transition table of
+    its own under -Cfe depends on exactly that."""
+    hi = ("plus", ("ccl", False, [("r", 128, 255), ("c", 0)]))
+    if variant == 0:
+        rs_ = [("plus", ("ccl", False, [("r", 1, 127)])), hi]
+    else:
+        rs_ = [("plus", ("ccl", False, [("r", 97, 109)])), ("plus", ("ccl", False, [("r", 110, 122)])),
+               hi, ("plus", ("ccl", False, [("r", 1, 96), ("r", 123, 127)]))]
+    case["rules"] = [{"scs": None, "bol": False, "pat": x, "trail": None, "act": []} for x in rs_]
+    case["defs"] = []
+    g.alpha = b"amnz \n\x00\x80\xe9\xff\x00\x90"
+
+
 # ---------------------------------------------------------------------------- C04
 def c04_job(chk, rng, i):
     p = gen.default_profile()
@@ -72,18 +87,7 @@ def c04_job(chk, rng, i):
                                  {"scs": None, "bol": False, "pat": pat, "trail": None, "act": []})
     shared = (i % 8 == 5)
     if shared:
-        # NUL shares its equivalence class with other bytes (here the high half of the
-        # alphabet), and the number of classes is 2 or 4: whether NUL needs a transition
-        # table of its own depends on exactly that
-        hi = ("plus", ("ccl", False, [("r", 128, 255), ("c", 0)]))
-        if (i // 8) % 2 == 0:
-            rs_ = [("plus", ("ccl", False, [("r", 1, 127)])), hi]
-        else:
-            rs_ = [("plus", ("ccl", False, [("r", 97, 109)])), ("plus", ("ccl", False, [("r", 110, 122)])),
-                   hi, ("plus", ("ccl", False, [("r", 1, 96), ("r", 123, 127)]))]
-        case["rules"] = [{"scs": None, "bol": False, "pat": x, "trail": None, "act": []} for x in rs_]
-        case["defs"] = []
-        g.alpha = b"amnz \n\x00\x80\xe9\xff\x00\x90"
+        shared_nul_class(g, case, (i // 8) % 2)
     f = {"ret": 20, "less": 15, "unput": 10, "unput_alpha": b"a\x00b\x00", "input": 10}
     if any(r.get("bol") for r in case["rules"]):
         f = {"ret": 20}
@@ -256,6 +260,14 @@ def c06_job(chk, rng, i):
             head, trail = [(fixed(), fixed()), (fixed(), var), (var, fixed())][shape]
             case["rules"].insert(rng.below(len(case["rules"]) + 1), {
                 "scs": None, "bol": False, "pat": head, "trail": trail, "act": [], "_fixed": True})
+    danger = (i % 10 == 3)
+    if danger:
+        # the shape the manual calls dangerous (the head can end with what the trail starts
+        # with): flex must either warn - then the case is exempt and skipped - or split right
+        a_, b_, c_ = rng.sample(list(b"qxyz"), 3)
+        case["rules"].insert(0, {"scs": None, "bol": False,
+                                 "pat": ("cat", [("chr", a_), ("star", ("chr", b_))]),
+                                 "trail": ("cat", [("chr", b_), ("plus", ("chr", c_))]), "act": []})
     f = {"ret": 25, "setbol": 12 if i % 3 == 0 else 0}
     if i % 4 == 2:
         f["more"] = 35      # a yymore() prefix must not shift the head/trail split
@@ -272,6 +284,10 @@ def c06_job(chk, rng, i):
         if rng.chance(40) and s.endswith(b"\n"):
             s = s[:-1]      # '$' at end of input without a newline
         inputs.append({"sources": [s], "sched": rng.choice([[0], [0], [1], [2, 1]])})
+    if danger:
+        for k in range(3):
+            inputs.append({"sources": [bytes([a_]) + bytes([b_]) * rng.rint(1, 3) + bytes([c_]) * rng.rint(1, 2)
+                                       + b" " + g.make_input(case, ctx, maxlen=20)], "sched": [0]})
     if i % 4 == 2:
         for r in case["rules"]:
             if r.get("_fixed"):
